@@ -404,6 +404,15 @@ fn shell_cases() -> Vec<(String, Vec<String>)> {
     // first matching item wins
     add("case ab in (a) p 1;; (a?|zz) p 2;; (ab) p 3;; (*) p 4;; esac".into(), &["2:0"]);
     add("case ab in (b*) p 1;; (*b) p 2;; (a*) p 3;; esac".into(), &["2:0"]);
+    // Alternatives of one item are tried one after the other: whatever a malformed or
+    // non-matching alternative means, a later alternative that matches selects the item, and an
+    // item none of whose alternatives matches is skipped.
+    for odd in ["[z-b]", "[[:nothing:]]", "[[..]]", "[[==]]", "[[:alpha:]-9]", "[b-", "[", "b", "''", "[!a]", "?x"] {
+        add(format!("case a in ({odd}|a) p first;; (*) p second;; esac"), &["first:0"]);
+        add(format!("case a in (b|{odd}|a|c) p first;; (*) p second;; esac"), &["first:0"]);
+        add(format!("case a in ({odd}|b) p first;; (a) p second;; (*) p third;; esac"), &["second:0"]);
+        add(format!("case a in (b) p first;; ({odd}|[a]) p second;; (*) p third;; esac"), &["second:0"]);
+    }
     add("case '' in (?) p 1;; ('') p 2;; (*) p 3;; esac".into(), &["2:0"]);
     add("case x in ([!a-w]) p 1;; (x) p 2;; esac".into(), &["1:0"]);
     // unquoted expansion results are patterns, quoted ones are literal
